@@ -85,6 +85,9 @@ pub struct Cfg {
   /// the history is driven through a clone of the arena value (the original stays alive next to it)
   #[serde(default)]
   pub via_clone: bool,
+  /// `Options::with_lock_meta` (mmap backends: the header is locked into memory at construction)
+  #[serde(default)]
+  pub lock_meta: bool,
 }
 
 fn default_retries() -> u8 {
@@ -105,6 +108,7 @@ impl Cfg {
       file_offset: 0,
       retries: 5,
       via_clone: false,
+      lock_meta: false,
     }
   }
 
@@ -119,6 +123,7 @@ impl Cfg {
       .with_magic_version(self.magic)
       .with_offset(self.file_offset as u64)
       .with_maximum_retries(self.retries)
+      .with_lock_meta(self.lock_meta)
   }
 
   /// effective layout (files are always unified)
